@@ -714,6 +714,10 @@ func (p *TimespanFormatParser) parse(str string) *TimespanFormat {
 				} else {
 					width = width*10 + n
 				}
+				if width > maxFormatNumber {
+					// the fmt package does not accept such a width
+					panic(badFormatSpecifier(str, formatStart, pos))
+				}
 			}
 			state = stateWidth
 		}
